@@ -375,6 +375,8 @@ class Connection(object):
                 return False
 
         buf_empty = (len(self.__tx_buf) == 0)
+        if buf_empty and up_empty:
+            self.send_drained()
         if sent_size:
             self._logger.debug('TX %d octets, remain %d octets (msg empty %s)', sent_size, len(
                 self.__tx_buf), up_empty)
@@ -400,6 +402,15 @@ class Connection(object):
             if self.__avail_tx_notls_pend is None:
                 self.__avail_tx_notls_pend = glib.idle_add(
                     self._avail_tx_notls)
+
+    def send_pending(self):
+        ''' Get the number of octets taken from :py:meth:`send_raw`
+        but not yet written to the socket.
+        '''
+        return len(self.__tx_buf)
+
+    def send_drained(self):
+        ''' Called when all octets handed down have been written. '''
 
     def send_raw(self, size):
         ''' Obtain a block of data to send.
@@ -536,7 +547,15 @@ class Messenger(Connection):
 
         :return: True if there are no data being processed RX or TX side.
         '''
-        return len(self.__rx_buf) == 0 and len(self.__tx_buf) == 0
+        return (
+            len(self.__rx_buf) == 0
+            and len(self.__tx_buf) == 0
+            and self.send_pending() == 0
+        )
+
+    def send_drained(self):
+        # the last thing which may have kept a terminating session open
+        self._check_sess_term()
 
     def set_on_session_start(self, func):
         ''' Set a callback to be run when this session is started.
